@@ -125,7 +125,7 @@ PROPS = {
     },
     "C02": {
         "verus": [("directory_lookup", ["Directory.lookup", "Directory.lookup_with_info", "Directory.get_lookup_info", "Directory.build_lookup_info", "Directory.derive_commitment_key",
-                                        "Directory.batch_lookup", "lemma_the_info", "get_marker_version", "Azks.get_latest_epoch"]), ("verify_lookup", ["lookup_verify"]), "azks_proofs",
+                                        "Directory.batch_lookup", "lemma_the_info", "get_marker_version", "Azks.get_latest_epoch"]), ("verify_lookup", ["lookup_verify"]), ("verify_base", BASE_VERIFY_FNS), "azks_proofs",
                   ("directory_publish", ["Directory.publish__head", "Directory.publish__tuples", "Directory.publish__tuples_for", "lemma_all_tuples_step", "lemma_labels_step", "lemma_distinct_iff", "lemma_multiset_same_set"])],
         "search": True,
         "always_search": True,
@@ -154,7 +154,7 @@ PROPS = {
     "C03": {
         "verus": [("directory_lookup", ["Directory.create_single_update_proof", "Directory.key_history__head", "Directory.key_history__tail", "Directory.derive_commitment_key", "lemma_min_max",
                                         "lemma_mask_is_filter", "Azks.get_latest_epoch"]),
-                  ("verify_history", ["verify_single_update_proof", "verify_with_history_params", "lemma_consecutive"]), "azks_proofs",
+                  ("verify_history", ["verify_single_update_proof", "verify_with_history_params", "lemma_consecutive"]), ("verify_base", BASE_VERIFY_FNS), "azks_proofs",
                   ("directory_publish", ["Directory.publish__tuples", "Directory.publish__tuples_for", "lemma_all_tuples_step"])],
         "search": True,
         "always_search": True,
@@ -180,7 +180,7 @@ PROPS = {
     },
     "C10": {
         "verus": [("directory_publish", ["Directory.publish__tail", "Directory.publish__after_commit", "Azks.get_latest_epoch"]), ("tree_node", [TN + "get_appropriate_tree_node_from_storage", TN + "determine_node_to_get", "TreeNode.get_from_storage", "TreeNode.get_child_label", "TreeNode.get_child_node", "TreeNode.write_to_storage"]),
-                  ("manager", ["Clone for StorageManager.clone"])],
+                  ("manager", ["Clone for StorageManager.clone", SM + "commit_transaction", SM + "write_committed_records", SM + "tic_toc", SM + "increment_metric"])],
         "search": True,
         "always_search": True,
         "bounded_search": [{"obligation": "replay/c10#single_fault_enumeration",
